@@ -67,41 +67,41 @@ macro_rules! kmer_try_from {
 
 harnesses! {
     // K family: each K is separately generated code
-    fn c08_q_kmers_dna_k1_n2 [4] { kmers_iter!(Dna, 1, 2, 64, 2) }
-    fn c08_q_kmers_dna_k4_n3 [4] { kmers_iter!(Dna, 4, 3, 64, 2) }
-    fn c08_q_kmers_dna_k4_n4 [4] { kmers_iter!(Dna, 4, 4, 64, 2) }
-    fn c08_q_kmers_dna_k4_n6 [5] { kmers_iter!(Dna, 4, 6, 64, 2) }
-    fn c08_q_kmers_dna_k31_n32 [4] { kmers_iter!(Dna, 31, 32, 96, 3) }
-    fn c08_q_kmers_dna_k32_n33 [4] { kmers_iter!(Dna, 32, 33, 96, 3) }
-    fn c08_q_kmers_dna_k32_n31 [4] { kmers_iter!(Dna, 32, 31, 96, 3) }
-    fn c08_q_kmers_iupac_k16_n17 [4] { kmers_iter!(Iupac, 16, 17, 48, 3) }
-    fn c08_q_kmers_amino_k10_n11 [4] { kmers_iter!(Amino, 10, 11, 32, 3) }
-    fn c08_t_kmers_dna_k2_n4 [5] { kmers_iter!(Dna, 2, 4, 64, 2) }
-    fn c08_t_kmers_dna_k3_n5 [5] { kmers_iter!(Dna, 3, 5, 64, 2) }
-    fn c08_t_kmers_dna_k5_n7 [5] { kmers_iter!(Dna, 5, 7, 64, 2) }
-    fn c08_t_kmers_dna_k8_n9 [4] { kmers_iter!(Dna, 8, 9, 64, 2) }
-    fn c08_t_kmers_dna_k16_n18 [5] { kmers_iter!(Dna, 16, 18, 96, 3) }
-    fn c08_t_kmers_iupac_k1_n2 [4] { kmers_iter!(Iupac, 1, 2, 32, 2) }
-    fn c08_t_kmers_iupac_k15_n16 [4] { kmers_iter!(Iupac, 15, 16, 48, 3) }
-    fn c08_t_kmers_amino_k1_n2 [4] { kmers_iter!(Amino, 1, 2, 21, 2) }
-    fn c08_t_kmers_amino_k9_n10 [4] { kmers_iter!(Amino, 9, 10, 32, 3) }
-    fn c08_t_kmers_text_k8_n9 [4] { kmers_iter!(text::Dna, 8, 9, 24, 3) }
-    fn c08_t_kmers_miupac_k12_n13 [4] { kmers_iter!(masked::Iupac, 12, 13, 38, 3) }
+    fn c08_q_kmers_dna_k1_n2 [10] { kmers_iter!(Dna, 1, 2, 64, 2) }
+    fn c08_q_kmers_dna_k4_n3 [10] { kmers_iter!(Dna, 4, 3, 64, 2) }
+    fn c08_q_kmers_dna_k4_n4 [10] { kmers_iter!(Dna, 4, 4, 64, 2) }
+    fn c08_q_kmers_dna_k4_n6 [10] { kmers_iter!(Dna, 4, 6, 64, 2) }
+    fn c08_q_kmers_dna_k31_n32 [10] { kmers_iter!(Dna, 31, 32, 96, 3) }
+    fn c08_q_kmers_dna_k32_n33 [10] { kmers_iter!(Dna, 32, 33, 96, 3) }
+    fn c08_q_kmers_dna_k32_n31 [10] { kmers_iter!(Dna, 32, 31, 96, 3) }
+    fn c08_q_kmers_iupac_k16_n17 [10] { kmers_iter!(Iupac, 16, 17, 48, 3) }
+    fn c08_q_kmers_amino_k10_n11 [10] { kmers_iter!(Amino, 10, 11, 32, 3) }
+    fn c08_t_kmers_dna_k2_n4 [10] { kmers_iter!(Dna, 2, 4, 64, 2) }
+    fn c08_t_kmers_dna_k3_n5 [10] { kmers_iter!(Dna, 3, 5, 64, 2) }
+    fn c08_t_kmers_dna_k5_n7 [10] { kmers_iter!(Dna, 5, 7, 64, 2) }
+    fn c08_t_kmers_dna_k8_n9 [10] { kmers_iter!(Dna, 8, 9, 64, 2) }
+    fn c08_t_kmers_dna_k16_n18 [10] { kmers_iter!(Dna, 16, 18, 96, 3) }
+    fn c08_t_kmers_iupac_k1_n2 [10] { kmers_iter!(Iupac, 1, 2, 32, 2) }
+    fn c08_t_kmers_iupac_k15_n16 [10] { kmers_iter!(Iupac, 15, 16, 48, 3) }
+    fn c08_t_kmers_amino_k1_n2 [10] { kmers_iter!(Amino, 1, 2, 21, 2) }
+    fn c08_t_kmers_amino_k9_n10 [10] { kmers_iter!(Amino, 9, 10, 32, 3) }
+    fn c08_t_kmers_text_k8_n9 [10] { kmers_iter!(text::Dna, 8, 9, 24, 3) }
+    fn c08_t_kmers_miupac_k12_n13 [10] { kmers_iter!(masked::Iupac, 12, 13, 38, 3) }
 
-    fn c08_q_try_from_dna_k4 [4] { kmer_try_from!(Dna, 4, usize, 64, 2) }
-    fn c08_q_try_from_dna_k32 [4] { kmer_try_from!(Dna, 32, usize, 96, 3) }
-    fn c08_q_try_from_amino_k10 [4] { kmer_try_from!(Amino, 10, usize, 32, 3) }
-    fn c08_q_try_from_dna_k32_u64 [4] { kmer_try_from!(Dna, 32, u64, 96, 3) }
-    fn c08_q_try_from_dna_k33_u128 [4] { kmer_try_from!(Dna, 33, u128, 96, 3) }
-    fn c08_q_try_from_dna_k64_u128 [8] { kmer_try_from!(Dna, 64, u128, 192, 6) }
-    fn c08_t_try_from_iupac_k16 [4] { kmer_try_from!(Iupac, 16, usize, 48, 3) }
-    fn c08_t_try_from_iupac_k32_u128 [6] { kmer_try_from!(Iupac, 32, u128, 64, 4) }
-    fn c08_t_try_from_amino_k21_u128 [6] { kmer_try_from!(Amino, 21, u128, 42, 4) }
-    fn c08_t_try_from_text_k8 [4] { kmer_try_from!(text::Dna, 8, usize, 24, 3) }
-    fn c08_t_try_from_dna_k1 [4] { kmer_try_from!(Dna, 1, usize, 64, 2) }
-    fn c08_t_try_from_dna_k31 [4] { kmer_try_from!(Dna, 31, usize, 96, 3) }
+    fn c08_q_try_from_dna_k4 [10] { kmer_try_from!(Dna, 4, usize, 64, 2) }
+    fn c08_q_try_from_dna_k32 [10] { kmer_try_from!(Dna, 32, usize, 96, 3) }
+    fn c08_q_try_from_amino_k10 [10] { kmer_try_from!(Amino, 10, usize, 32, 3) }
+    fn c08_q_try_from_dna_k32_u64 [10] { kmer_try_from!(Dna, 32, u64, 96, 3) }
+    fn c08_q_try_from_dna_k33_u128 [10] { kmer_try_from!(Dna, 33, u128, 96, 3) }
+    fn c08_q_try_from_dna_k64_u128 [10] { kmer_try_from!(Dna, 64, u128, 192, 6) }
+    fn c08_t_try_from_iupac_k16 [10] { kmer_try_from!(Iupac, 16, usize, 48, 3) }
+    fn c08_t_try_from_iupac_k32_u128 [10] { kmer_try_from!(Iupac, 32, u128, 64, 4) }
+    fn c08_t_try_from_amino_k21_u128 [10] { kmer_try_from!(Amino, 21, u128, 42, 4) }
+    fn c08_t_try_from_text_k8 [10] { kmer_try_from!(text::Dna, 8, usize, 24, 3) }
+    fn c08_t_try_from_dna_k1 [10] { kmer_try_from!(Dna, 1, usize, 64, 2) }
+    fn c08_t_try_from_dna_k31 [10] { kmer_try_from!(Dna, 31, usize, 96, 3) }
 
-    fn c08_q_seq_from_kmer_dna_k2 [4] {
+    fn c08_q_seq_from_kmer_dna_k2 [10] {
         // Seq::from(kmer) shows the same symbols (heap: with_capacity + push)
         let v = any_usize();
         assume(v < 16);
@@ -114,7 +114,7 @@ harnesses! {
         reach!("end");
         core::mem::forget(s);
     }
-    fn c08_q_try_from_owned_seq_dna_k4 [5] {
+    fn c08_q_try_from_owned_seq_dna_k4 [10] {
         // TryFrom<Seq> for Kmer
         let w = any_usize();
         let n = any_usize();
@@ -129,7 +129,7 @@ harnesses! {
         }
         reach!(n == 4, "ok");
     }
-    fn c08_q_display_dna_k4 [8] {
+    fn c08_q_display_dna_k4 [10] {
         // displays with the same symbols (Display -> String)
         let v = any_usize();
         assume(v < 256);
@@ -143,7 +143,7 @@ harnesses! {
         reach!("end");
         core::mem::forget(t);
     }
-    fn c08_q_display_amino_k3_u128 [8] {
+    fn c08_q_display_amino_k3_u128 [10] {
         let v = any_u128();
         assume(v < (1 << 18));
         let k = kmer128::<Amino, 3>(v);
@@ -157,7 +157,7 @@ harnesses! {
         reach!("end");
         core::mem::forget(t);
     }
-    fn c08_q_from_str_dna_k2 [6] {
+    fn c08_q_from_str_dna_k2 [10] {
         // Kmer::from_str: right length and valid text -> those symbols; otherwise an error, never a padded/truncated k-mer
         let b = any_u8();
         assume(b < 0x80);
@@ -177,14 +177,14 @@ harnesses! {
             }
         }
     }
-    fn c08_q_from_str_wrong_length [6] {
+    fn c08_q_from_str_wrong_length [10] {
         let r1 = Kmer::<Dna, 3>::from_str("AC");
         assert!(r1 == Err(ParseBioError::MismatchedLength(3, 2)), "C08.from_str.short_text_must_be_error");
         let r2 = Kmer::<Dna, 1>::from_str("AC");
         assert!(r2 == Err(ParseBioError::MismatchedLength(1, 2)), "C08.from_str.long_text_must_be_error");
         reach!("end");
     }
-    fn c08_q_kmer_macro [4] {
+    fn c08_q_kmer_macro [10] {
         // kmer! literal: concrete programs, symbols per the documented layout
         let k = kmer!("ACGT");
         assert!(k.bs == 0b11_10_01_00, "C08.kmer_macro.acgt");
